@@ -110,6 +110,29 @@ def maybe_unassigned_reads(stmts, defs, out):
     return defs
 
 
+def loop_threshold_problem(w, cur):
+    """`while len(cursor) > K` / `>= K` must not stop while a whole element (the octets every iteration consumes
+    at least) is still in the buffer."""
+    body = ast.Module(body=w.body, type_ignores=[])
+    minadv = None
+    for st in ast.walk(body):
+        if isinstance(st, ast.Assign) and isinstance(st.value, ast.Subscript) and \
+                isinstance(st.value.slice, ast.Slice) and st.value.slice.upper is None and \
+                st.value.slice.lower is not None and src_of(st.targets[0]) in cur and \
+                src_of(st.value.value) == src_of(st.targets[0]):
+            lb = _lower_bound(st.value.slice.lower)
+            minadv = lb if minadv is None else min(minadv, lb)
+    t = w.test
+    if minadv and isinstance(t, ast.Compare) and len(t.ops) == 1 and isinstance(t.left, ast.Call) and \
+            src_of(t.left.func) == 'len' and isinstance(t.comparators[0], ast.Constant) and \
+            isinstance(t.comparators[0].value, int) and isinstance(t.ops[0], (ast.Gt, ast.GtE)):
+        k = t.comparators[0].value + (1 if isinstance(t.ops[0], ast.Gt) else 0)
+        if k > minadv:
+            return ('the loop stops when fewer than %d octets remain (%s) but an element can be as short as %d octets: a '
+                    'minimal last element is dropped, yet decoded when something follows it' % (k, src_of(t), minadv))
+    return None
+
+
 def _enclosing_ifs(loop, node):
     """If statements of the loop body that enclose `node`."""
     out = []
@@ -332,7 +355,11 @@ def check(prog, rep, tier):
             rep.ok('R15.b', lk, file=f.file, line=w.lineno, nontrivial=False)
         # ---- R15.c
         if f.qualname == UPD + '.parse_attributes':
-            continue            # judged by R15.d
+            thr = loop_threshold_problem(w, cur)
+            if thr:
+                rep.bad('R15.c', lk, file=f.file, line=w.lineno, func=f.qualname, found=thr,
+                        expected='continue while a whole element remains', key=lk)
+            continue            # the rest is judged by R15.d
         stores = {}
         loads = {}
         aug_only = {}
@@ -393,28 +420,11 @@ def check(prog, rep, tier):
                           'depends on the elements before it' % acc_reads[0],
                     expected='the result list is only appended to', key=lk)
             continue
-        # the loop runs while input remains: a test len(cursor) > K / >= K must not stop while a whole element
-        # (at least the octets every iteration consumes) is still there
-        minadv = None
-        for st in ast.walk(body):
-            if isinstance(st, ast.Assign) and isinstance(st.value, ast.Subscript) and \
-                    isinstance(st.value.slice, ast.Slice) and st.value.slice.upper is None and \
-                    st.value.slice.lower is not None and src_of(st.targets[0]) in cur and \
-                    src_of(st.value.value) == src_of(st.targets[0]):
-                lb = _lower_bound(st.value.slice.lower)
-                minadv = lb if minadv is None else min(minadv, lb)
-        t = w.test
-        if minadv and isinstance(t, ast.Compare) and len(t.ops) == 1 and isinstance(t.left, ast.Call) and \
-                src_of(t.left.func) == 'len' and isinstance(t.comparators[0], ast.Constant) and \
-                isinstance(t.comparators[0].value, int) and isinstance(t.ops[0], (ast.Gt, ast.GtE)):
-            k = t.comparators[0].value + (1 if isinstance(t.ops[0], ast.Gt) else 0)
-            if k > minadv:
-                rep.bad('R15.c', lk, file=f.file, line=w.lineno, func=f.qualname,
-                        found='the loop stops when fewer than %d octets remain (%s) but an element can be as short '
-                              'as %d octets: a minimal last element is dropped, yet decoded when something follows it'
-                              % (k, src_of(t), minadv),
-                        expected='continue while a whole element remains', key=lk)
-                continue
+        thr = loop_threshold_problem(w, cur)
+        if thr:
+            rep.bad('R15.c', lk, file=f.file, line=w.lineno, func=f.qualname, found=thr,
+                    expected='continue while a whole element remains', key=lk)
+            continue
         # path-sensitive version: a name stored somewhere in the loop body that can be read on a path of one
         # iteration before it is assigned in that iteration carries a value over from the previous element
         reads = []
